@@ -254,7 +254,7 @@ PROPS = {
     },
     "C14": {
         "n": {"quick": 60, "thorough": 1500},
-        "cone": ["Bytes", "BytesLemmas", "Generated", "SshArgs", "SshArgsLemmas"],
+        "cone": ["Bytes", "BytesLemmas", "Generated", "SshArgs", "SshArgsLemmas", "DecideLang", "GeneratedSkel", "Decide"],
         "rule": "exhaustive table {system, standard, system with real OpenSSH} x {strict (default), not strict} x {known-hosts has the key / another key / "
                 "empty / not given} x {password, key, both}, then random ports/users/extra args/config file/netconf; system transport through a stand-in "
                 "ssh binary that records argv, standard transport against an in-process x/crypto/ssh server with a fresh host key (and a second server "
@@ -263,7 +263,7 @@ PROPS = {
                       "strings) and Standard.openBase hold for all settings and strings: strict => yes-option present / no-option absent / known-hosts "
                       "named; argv independent of the password; host/port/user/key/config as configured; policy and auth-method decisions; default "
                       "strict. Tied to the code by argv and server-side observations on the configuration table.",
-        "level_note": "Partial: that OpenSSH and crypto/ssh ENFORCE the option / callback is runtime behaviour, exercised on the table, not proved.",
+        "level_note": "C14_std_open_base_is_source: Standard.openBase is translated statement by statement from the Go AST on every run; its interpretation installs the policy and offers the auth methods of the model for every configuration. Partial: that OpenSSH and crypto/ssh ENFORCE the option / callback is runtime behaviour, exercised on the table, not proved.",
     },
     "C16": {
         "n": {"quick": 60, "thorough": 2500},
